@@ -11,6 +11,7 @@ CONSTANTS
   MaxTicks = %(ticks)d
   MaxBad = %(bad)d
   MaxSegIdx = 65535
+  SlotWrap = FALSE
   GenCanon = %(canon)s
 %(view)s
 INVARIANTS ExactOrNothing NothingIfMissing AllSegmentsIn ForgottenAfterExpiry OversizeRefused TableConsistent AllDeliveredIfNoLoss
@@ -140,6 +141,13 @@ def run():
     ]
     # L1: exhaustive model check (merged by VIEW) of all operation sequences incl. ticks, gc, malformed
     ctx.l1("Segment", "Segment_q.cfg")
+    # the boundary of the segment count (scaled: P = 2, MaxSegIdx = 3): the largest accepted message is delivered, the next size is refused;
+    # the receiver that computes its slot count in the width of the header field (pinned commit) never delivers the largest one
+    ctx.l1("Segment", "Segment_wrapfix.cfg")
+    ctx.l1("Segment", "Segment_wrapover.cfg")
+    rw = ctx.l1("Segment", "Segment_wrap.cfg", must_hold=False)
+    if rw.violated != "AllDeliveredIfNoLoss":
+        raise Inconclusive("Segment with SlotWrap = TRUE should violate AllDeliveredIfNoLoss, TLC says %s" % (rw.violated or rw.error or "nothing"))
     if not ctx.quick():
         ctx.l1("Segment", "Segment_t.cfg", timeout=1200)
     # script generation = every complete path of the generator configurations
@@ -161,8 +169,11 @@ def run():
         scs.append({"id": "C14/corner/%d" % n, "kind": "segment", "p": {"msgLens": [n], "P": 1188, "expiry": 1}, "steps": steps})
     scs.append({"id": "C14/oversize", "kind": "segment", "p": {"msgLens": [77856768, 1], "P": 1188, "expiry": 1},
                 "steps": [{"a": "send", "n": 1}, {"a": "send", "n": 2}, {"a": "deliver", "n": 2, "seq": 0}]})
+    # the largest message the sender accepts: 65536 segments (65535 full ones and an empty last one), all delivered in order
+    scs.append({"id": "C14/largest", "kind": "segment", "p": {"msgLens": [65535 * 1188], "P": 1188, "expiry": 1},
+                "steps": [{"a": "send", "n": 1}, {"a": "deliverAll", "n": 1}]})
     trace = ctx.run_scenarios(scs, "c14", par=4)
-    verdicts, r = ctx.validate(trace, "MonC14", consts={"P": 1188, "Expiry": 1, "MaxTicks": 9, "MaxBad": 9, "MaxSegIdx": 65535, "GenCanon": "FALSE"})
+    verdicts, r = ctx.validate(trace, "MonC14", consts={"P": 1188, "Expiry": 1, "MaxTicks": 9, "MaxBad": 9, "MaxSegIdx": 65535, "SlotWrap": "FALSE", "GenCanon": "FALSE"})
     ctx.judge(scs, trace, verdicts)
     nscripts = dgram_part(ctx)
     wt_part(ctx)
